@@ -85,7 +85,7 @@ def run(chk: framework.Check):
     drv = lean.Driver()
     n_worlds = 600 if chk.tier == "quick" else 6000
     corr_fail = []
-    for G, S, w in streams.worlds(chk, drv, n_worlds, no_any=True, unions=True):
+    for G, S, w in streams.worlds(chk, drv, n_worlds, no_any=True, unions=True, nt=True):
         for ty, x, xv in streams.typed_values(chk, G, S, w, n_types=5, n_values=2):
             unions = gen.reach_unions(w, ty)
             # a union the generator did not build to be distinguishable may be refused (hook creation or structuring
@@ -95,6 +95,10 @@ def run(chk: framework.Check):
                 scope = drv.ask("USCOPE 0 %s" % terms.ty_sx(ty))
                 chk.note("union-case:" + ("by-construction" if not lenient else "arbitrary-members"),
                          "union-hyp(unionsOK,refusal-reachable,noUnion):" + scope)
+            nts = any(not isinstance(t_, str) and t_[0] == "nt" for rt in gen.reach_types(w, ty) for t_ in gen.walk_types(rt))
+            if nts:
+                # NamedTuple hypotheses of the theorems about BaseConverter-unstructured data (needed when `cu` is a BaseConverter)
+                chk.note("nt-case:hyp(ntOK whole table, ntOK reachable classes, no NamedTuple reachable):" + drv.ask("NTSCOPE %s" % terms.ty_sx(ty)))
             for cu, cs in PAIRS:
                 if not (gen.supported(cu, w, ty) and gen.supported(cs, w, ty)):
                     chk.note("unsupported-by-converter-class")
@@ -107,6 +111,8 @@ def run(chk: framework.Check):
                           sample={"cfg": name, "type": terms.ty_sx(ty), "value": terms.canon_sx(x), "result": ri[0]})
                 chk.note("pair:" + ("same" if cu == cs else "cross"), "cfg:" + cfg_name(cu),
                          "ty:" + (ty if isinstance(ty, str) else ty[0]))
+                if nts:
+                    chk.note("nt-reachable:unstructured-by-" + ("Converter" if cu["gen"] else "BaseConverter"))
                 for t in gen.walk_types(ty):
                     chk.note("ctor:" + (t if isinstance(t, str) else t[0]))
                 # ---- oracle
@@ -139,7 +145,7 @@ def run(chk: framework.Check):
             f"[{cfg_name(case['cu'])}=>{cfg_name(case['cs'])} {terms.ty_sx(case['ty'])} {terms.canon_sx(case['x'])}]",
             case, found_input=False)
     known_finding_probes(chk, drv)
-    chk.extra["rule"] = ("random worlds (attrs/dataclass/TypedDict, union families told apart by unique required attributes / Literal tags / "
+    chk.extra["rule"] = ("random worlds (attrs/dataclass/TypedDict/NamedTuple classes, union families told apart by unique required attributes / Literal tags / "
                          "not at all, frozen/slots, defaults/factories, init=False, kw_only, private names) x types (incl. class unions, Optional[Union]) "
                          "to depth 3 x conforming values x 8 configurations + 4 cross pairs; non-trivial = non-leaf type; distinct by canonical text")
     # implementation-only extended stream (unions, NamedTuples, registry hooks, one-shot iterables)
